@@ -35,6 +35,10 @@ def generate(seed: int, tier: str = "quick") -> dict:
     toks = mw["tokens"]
     for t in toks:
         world["assets"][t] = "1000000"
+    rz = R.sub(seed, "zero_threshold")
+    for t in toks:  # reserves that cannot be collateral mostly carry LTV = threshold = 0 in the real tables
+        if not mw["risk"][t]["collateral"] and rz.random() < 0.6:
+            mw["risk"][t]["ltv"], mw["risk"][t]["lt"] = 0, 0
     unit = {t: Decimal(1000) / Decimal(world["prices"][t][0]) for t in toks}
     coll_flag = {t: (mw["risk"][t]["collateral"] and rp.random() < 0.8) for t in toks}
     program, faults = [], []
